@@ -201,6 +201,8 @@ pub async fn scenario(line: &str) -> String {
     "hwm" => hwm(&p).await,
     "linger" => linger(&p).await,
     "lifecycle" => lifecycle(&p).await,
+    "churn" => churn(&p).await,
+    "fanin" => fanin(&p).await,
     "bigmulti" => bigmulti(&p).await,
     "faultlocal" => faultlocal(&p).await,
     _ => "bad-op".to_string(),
@@ -2230,5 +2232,186 @@ async fn lifecycle_inner(types: Vec<String>, script: Vec<String>, rt: tokio::run
     "lifecycle=ok".into()
   } else {
     format!("ORACLE-FAIL {}", problems.join("; "))
+  }
+}
+
+
+/// `churn <cfg extras> <cycles> <msgs> <size>`
+/// A long-lived PULL (with the cfg extras, e.g. `uring=1`) serves `cycles` short-lived PUSH sockets (same extras): each
+/// connects, sends `msgs` messages of `size` bytes, which must all arrive, and closes; every third cycle a raw TCP peer
+/// also connects, sends half a greeting and vanishes. Far more buffers are turned over than any pool holds. Afterwards a
+/// last round must still work and the process must not hold more file descriptors than before (one per connection would
+/// show). Result: `churn=ok`.
+async fn churn(p: &[&str]) -> String {
+  let extras = p[1].to_string();
+  let cycles: usize = p[2].parse().unwrap();
+  let msgs: usize = p[3].parse().unwrap();
+  let size: usize = p[4].parse().unwrap();
+  let fd_count = || std::fs::read_dir("/proc/self/fd").map(|d| d.count()).unwrap_or(0);
+  let mk_cfg = |ty: &str| {
+    let mut c = parse_kv(&extras);
+    c.insert("type".into(), ty.into());
+    c
+  };
+  let ctx = Context::new().expect("ctx");
+  let pull = match make_socket(&ctx, &mk_cfg("PULL")).await {
+    Ok(s) => s,
+    Err(e) => return format!("setup-error {}", err_class(&e)),
+  };
+  let _ = set_i32(&pull, o::RCVTIMEO, 10000).await;
+  if pull.bind("tcp://127.0.0.1:0").await.is_err() {
+    return "setup-error bind".into();
+  }
+  let ep = last_endpoint(&pull).await;
+  // warm-up round, then the baseline
+  let mut problems: Vec<String> = Vec::new();
+  let mut fds_before = 0usize;
+  for cycle in 0..(cycles + 2) {
+    if cycle == 1 {
+      tokio::time::sleep(Duration::from_millis(300)).await;
+      fds_before = fd_count();
+    }
+    let push = match make_socket(&ctx, &mk_cfg("PUSH")).await {
+      Ok(s) => s,
+      Err(e) => return format!("setup-error {}", err_class(&e)),
+    };
+    let _ = set_i32(&push, o::SNDTIMEO, 10000).await;
+    let _ = set_i32(&push, o::LINGER, -1).await;
+    if push.connect(&ep).await.is_err() {
+      problems.push(format!("cycle {}: connect failed", cycle));
+      break;
+    }
+    let mut sent = 0usize;
+    for i in 0..msgs {
+      let mut body = vec![(cycle % 251) as u8; size.max(8)];
+      body[..4].copy_from_slice(&(i as u32).to_be_bytes());
+      match push.send(Msg::from_vec(body)).await {
+        Ok(()) => sent += 1,
+        Err(e) => {
+          problems.push(format!("cycle {}: send #{} failed: {}", cycle, i, err_class(&e)));
+          break;
+        }
+      }
+    }
+    let mut got = 0usize;
+    while got < sent {
+      match pull.recv().await {
+        Ok(m) => {
+          let b = m.data().unwrap_or(&[]);
+          if b.len() != size.max(8) || b[4] != (cycle % 251) as u8 {
+            problems.push(format!("cycle {}: message {} damaged ({} bytes)", cycle, got, b.len()));
+            break;
+          }
+          got += 1;
+        }
+        Err(e) => {
+          problems.push(format!("cycle {}: only {} of {} messages arrived ({})", cycle, got, sent, err_class(&e)));
+          break;
+        }
+      }
+    }
+    if cycle % 3 == 2 && std::env::var("VERIF_CHURN_NORAW").is_err() {
+      if let Ok(mut st) = TcpStream::connect(ep.trim_start_matches("tcp://")).await {
+        let _ = st.write_all(&[0xff, 0, 0, 0, 0, 0, 0, 0, 1, 0x7f, 3]).await;
+        tokio::time::sleep(Duration::from_millis(5)).await;
+        drop(st);
+      }
+    }
+    let _ = tokio::time::timeout(Duration::from_secs(5), push.close()).await;
+    if !problems.is_empty() {
+      break;
+    }
+  }
+  // descriptors of closed connections are released
+  let mut fds_after = fd_count();
+  let t0 = Instant::now();
+  while fds_after > fds_before + 2 && t0.elapsed() < Duration::from_secs(3) {
+    tokio::time::sleep(Duration::from_millis(100)).await;
+    fds_after = fd_count();
+  }
+  if problems.is_empty() && fds_after > fds_before + 2 {
+    problems.push(format!("{} file descriptors open after {} connect/close cycles, {} before", fds_after, cycles, fds_before));
+  }
+  let _ = tokio::time::timeout(Duration::from_secs(5), pull.close()).await;
+  let _ = tokio::time::timeout(Duration::from_secs(12), ctx.term()).await;
+  if problems.is_empty() {
+    "churn=ok".into()
+  } else {
+    format!("ORACLE-FAIL key=churn {}", problems.join("; "))
+  }
+}
+
+
+/// `fanin <cfg extras> <n>`
+/// `n` PUSH sockets are connected to one PULL at the same time (all with the cfg extras, e.g. `uring=1`); each sends
+/// three numbered messages; all 3n must arrive. Result: `fanin=ok`.
+async fn fanin(p: &[&str]) -> String {
+  let extras = p[1].to_string();
+  let n: usize = p[2].parse().unwrap();
+  let mk_cfg = |ty: &str| {
+    let mut c = parse_kv(&extras);
+    c.insert("type".into(), ty.into());
+    c
+  };
+  let ctx = Context::new().expect("ctx");
+  let pull = match make_socket(&ctx, &mk_cfg("PULL")).await {
+    Ok(s) => s,
+    Err(e) => return format!("setup-error {}", err_class(&e)),
+  };
+  let _ = set_i32(&pull, o::RCVTIMEO, 3000).await;
+  if pull.bind("tcp://127.0.0.1:0").await.is_err() {
+    return "setup-error bind".into();
+  }
+  let ep = last_endpoint(&pull).await;
+  let mut pushes = Vec::new();
+  for _ in 0..n {
+    let s = match make_socket(&ctx, &mk_cfg("PUSH")).await {
+      Ok(s) => s,
+      Err(e) => return format!("setup-error {}", err_class(&e)),
+    };
+    let _ = set_i32(&s, o::SNDTIMEO, 3000).await;
+    if s.connect(&ep).await.is_err() {
+      return "setup-error connect".into();
+    }
+    pushes.push(s);
+  }
+  tokio::time::sleep(Duration::from_millis(300)).await;
+  let mut send_failures = 0usize;
+  for (i, s) in pushes.iter().enumerate() {
+    for k in 0..3u8 {
+      if s.send(Msg::from_vec(vec![i as u8, k])).await.is_err() {
+        send_failures += 1;
+      }
+    }
+  }
+  let mut seen = std::collections::BTreeSet::new();
+  while seen.len() < 3 * n {
+    match pull.recv().await {
+      Ok(m) => {
+        let b = m.data().unwrap_or(&[]).to_vec();
+        if b.len() == 2 {
+          seen.insert((b[0], b[1]));
+        }
+      }
+      Err(_) => break,
+    }
+  }
+  for s in &pushes {
+    let _ = tokio::time::timeout(Duration::from_secs(5), s.close()).await;
+  }
+  let _ = tokio::time::timeout(Duration::from_secs(5), pull.close()).await;
+  let _ = tokio::time::timeout(Duration::from_secs(12), ctx.term()).await;
+  if seen.len() == 3 * n && send_failures == 0 {
+    "fanin=ok".into()
+  } else {
+    let silent: Vec<usize> = (0..n).filter(|i| !(0..3u8).any(|k| seen.contains(&(*i as u8, k)))).collect();
+    format!(
+      "ORACLE-FAIL key=fanin-lost {} of {} messages arrived from {} simultaneous connections ({} sends refused; nothing at all from {} of them)",
+      seen.len(),
+      3 * n,
+      n,
+      send_failures,
+      silent.len()
+    )
   }
 }
